@@ -46,6 +46,11 @@ class C13(flow.Spec):
                     tags.add("pending-at-stop")
                 phases.append("%d %s %s" % (len(ops), " ".join(ops), stop))
             out.append(("restart 2 %s" % " ".join(phases), tags))
+        # three lives: created and stopped gracefully, restored and then killed (with or without writes the
+        # matcher has not handled yet), started again: the second life must have left its own mark
+        for first in ("G", "S", "T"):
+            for ops2 in ("2 W 2 W 3", "2 W 2 F", "3 W 1 F W 2", "1 F"):
+                out.append(("restart 2 2 W 1 F %s %s K" % (first, ops2), {"stop-" + first, "stop-K", "killed-after-restore"}))
         # a remote batch being applied by the real change handler when the node shuts down gracefully
         combos = [(300, 0), (100, 0), (1000, 0), (300, 5), (3000, 10), (40000, 400)]
         if tier != "quick":
@@ -158,11 +163,15 @@ class C13(flow.Spec):
             return [(0, "crash")]
         fails = []
         pi = -1
+        kinds = [ph[1] for ph in self.phases(case)] if case.startswith("restart") else []
         for kind, f, raw in p:
             if kind == "before":
                 pi += 1
                 meta = f.get("meta")
                 restored = f.get("restored")
+                if kinds and pi < len(kinds) and kinds[pi] == "K" and restored != "0":
+                    # killed while running (in its first life or after a restore): never served again
+                    fails.append((pi, "unclean-restored"))
                 if meta == "completed":
                     if restored != "1" or f.get("same_id") != "1":
                         fails.append((pi, "not-restored")); continue
